@@ -310,6 +310,8 @@ fn verif_native_check_cli() {
         "halt\nPush r2\n",
         "ld r0, far\nhalt\n.blkw x200\nfar .fill 1\n",
         "add r0, r0, #99999999\nhalt\n",
+        // programs without a single statement
+        "", "; only a comment\n", ".orig x3000\n.end\n",
     ];
     let mut evaluated = 0u64;
     let mut rejected = 0u64;
